@@ -25,7 +25,7 @@ pub struct NodeWorld {
 
 /// Start a node, connect it to the scripted peer (real time), then take over the clock.
 pub async fn node_world(ctx: &WorkerCtx, peer_flags: u64) -> Result<NodeWorld, String> {
-    let w = World::new(ctx.heartbeat.clone()).await;
+    let w = World::new(ctx.heartbeat.clone(), &ctx.listeners).await;
     let mut node = Node::new("me@127.0.0.1", crate::world::COOKIE);
     node.start(0).await.map_err(|e| format!("node.start: {}", e))?;
     let node = Arc::new(node);
